@@ -123,6 +123,7 @@ def cmd_check(prop, tier, seed, only=None, jobs=None):
     by_backend = {}
     solver_s = 0.0
     failures = []          # (result, obligation)
+    fragile = []           # discharged, but not by the default solver variant or only with > 25% of the budget
     generr = []
     lib = set()
     vacuous = []
@@ -147,6 +148,10 @@ def cmd_check(prop, tier, seed, only=None, jobs=None):
             obligations += 1
             if o["status"] == "proved":
                 discharged += 1
+                # stability gate: proved only by a fallback variant, or close to the budget => knife-edge proof
+                budget_s = 20.0 if tier == "quick" else 120.0
+                if "ematching" in o["backend"] or "seed" in o["backend"] or o["seconds"] > 0.25 * budget_s:
+                    fragile.append((r, o))
                 b = by_backend.setdefault(o["backend"], {"count": 0, "seconds": 0.0})
                 b["count"] += 1
                 b["seconds"] += o["seconds"]
@@ -225,11 +230,14 @@ def cmd_check(prop, tier, seed, only=None, jobs=None):
     if obligations < floor and not only:
         engine_errors.append("only %d obligations generated (floor %d)" % (obligations, floor))
 
+    for r, g in generr:
+        if g["outcome"] == "engine-crash":
+            engine_errors.append("verifier crashed on a path of %s[%s]: %s" % (r["contract"], r["case"], g.get("reason")))
     gen_out = []
     for r, g in generr:
         fobj = match_finding(findings, prop, r["contract"], r["case"], "generation:" + g["outcome"])
         gen_out.append({"contract": r["contract"], "case": r["case"], **g})
-        if fobj is None:
+        if fobj is None and g["outcome"] != "engine-crash":
             undecided.append({"contract": r["contract"], "case": r["case_params"], "obligation": "generation:" + g["outcome"],
                               "reason": g.get("reason"), "trace": g.get("trace")})
 
@@ -243,6 +251,9 @@ def cmd_check(prop, tier, seed, only=None, jobs=None):
         lines.append("  obligation %s[%s].%s (%s)" % (rec["target"], rec["case"]["name"], rec["obligation"], rec["status"]))
     for u in undecided:
         lines.append("UNDECIDED obligation=%s[%s].%s reason=%s" % (u.get("contract"), u["case"]["name"] if isinstance(u["case"], dict) else u["case"], u["obligation"], u.get("reason")))
+    for r, o in fragile:
+        lines.append("FRAGILE obligation=%s[%s].%s proved by %s in %.1fs (informational: discharged in this run, but a proof this "
+                     "close to the solver's limits is not to be relied on)" % (r["contract"], r["case"], o["name"], o["backend"], o["seconds"]))
     for e in engine_errors:
         lines.append("ENGINE-ERROR " + e)
 
@@ -271,6 +282,9 @@ def cmd_check(prop, tier, seed, only=None, jobs=None):
             "fixed_findings": [f["what"] for f in fixed],
             "generation_errors": gen_out[:20],
             "undecided": len(undecided),
+            "fragile_discharges": [{"obligation": "%s[%s].%s" % (r["contract"], r["case"], o["name"]), "backend": o["backend"],
+                                    "seconds": o["seconds"]} for r, o in fragile][:40],
+            "fragile_count": len(fragile),
             "engine_errors": engine_errors,
             "samples": samples + [{"canary": nm, "case": r["case"], "refuting_input": st.get("inputs")} for r, nm, st in canary_jobs[:2]],
             "bounded_standins": entry.get("bounded", []),
@@ -283,8 +297,8 @@ def cmd_check(prop, tier, seed, only=None, jobs=None):
         json.dump(ev, f, indent=1, default=str)
     for l in lines:
         print(l)
-    print("property=%s tier=%s cases=%d obligations=%d discharged=%d known=%d violations=%d undecided=%d canaries=%d/%d wall=%.1fs"
-          % (prop, tier, len(work), obligations, discharged, len(known_hits), len(violations), len(undecided),
+    print("property=%s tier=%s cases=%d obligations=%d discharged=%d fragile=%d known=%d violations=%d undecided=%d canaries=%d/%d wall=%.1fs"
+          % (prop, tier, len(work), obligations, discharged, len(fragile), len(known_hits), len(violations), len(undecided),
              canaries_refuted, canaries_total, wall))
     if engine_errors:
         return 3
